@@ -1,15 +1,13 @@
 CONSTANTS
-  Shapes <- Shapes22
-  RSet <- One
-  KeyMode = "before"
-  WalkMode = "reverse"
   ESet <- OneTwo
   Shapes1 <- Shapes33
   Shapes2 <- Shapes22
   Shapes3 <- Shapes22
   RSet1 <- OneTwo
-  RSet2 <- OneTwo
+  RSet2 <- One
   RSet3 <- One
+  KeyMode = "before"
+  WalkMode = "reverse"
   NCases = 1000000
 INIT ExhInit
 NEXT ExhNext
